@@ -80,6 +80,11 @@ def runners():
     add('mandoline-3d-off-fine', lambda m: [mand(m, 'plt', False).slice(normal=n, pos=x, fformat='return') for n, x in ((0, -0.3), (2, 2.2))],
         serial=lambda m: [mand(m, 'plt', True).slice(normal=n, pos=x, fformat='return') for n, x in ((0, -0.3), (2, 2.2))])
     add('mandoline-2d', lambda m: mand(m, 'plt2d', False).slice(fformat='return'), serial=lambda m: mand(m, 'plt2d', True).slice(fformat='return'))
+    # one retained Mandoline asked twice: in serial mode the tasks run on the object's own arrays, in a pool on pickled copies -
+    # the second answer must be the same either way
+    add('mandoline-2d-twice', lambda m: twice(mand(m, 'plt2d', False), [{}, {}]), serial=lambda m: twice(mand(m, 'plt2d', True), [{}, {}]))
+    add('mandoline-3d-twice', lambda m: twice(mand(m, 'plt', False), [dict(normal=2), dict(normal=0, pos=0.6)]),
+        serial=lambda m: twice(mand(m, 'plt', True), [dict(normal=2), dict(normal=0, pos=0.6)]))
     add('mandoline-plotfile', lambda m: mand(m, 'plt', False).slice(normal=1, pos=1.5, outfile='out', fformat='plotfile'), ['out'],
         serial=lambda m: mand(m, 'plt', True).slice(normal=1, pos=1.5, outfile='out', fformat='plotfile'))
     add('pestle', lambda m: m['amr_kitchen.pestle.pestle'].volume_integral(PC(m)('plt', ghost=True), 'a', use_volfrac=True))
@@ -110,6 +115,10 @@ def chef(m, serial):
     ch = m['amr_kitchen.chef.chef'].Chef(plotfile='plt', recipe=RECIPE, outfile='out', serial=serial, kept_fields='volFrac')
     ch.recipe.__globals__['np'] = npfacade.facade
     ch.cook()
+
+
+def twice(obj, kws):
+    return [obj.slice(fformat='return', **kw) for kw in kws]
 
 
 def mand(m, plt, serial):
